@@ -216,9 +216,8 @@ def s_For(self, st, env):
   mod = assigned_names(st.body) | assigned_names([ast.Expr(st.target)]) | target_names(st.target) | ghost_written(self, st.body)
   mod |= set(self.spec.loop_modifies.get(lid, ())) if getattr(self.spec, 'loop_modifies', None) else set()
   ghost = {'_k': SV(INT, z3.IntVal(0)), f'_k{lid}': SV(INT, z3.IntVal(0)), '_n': SV(INT, n), f'_n{lid}': SV(INT, n)}
-  if it.elem_sort is not None:
-    at = it.at
-    ghost['_at'] = ghost[f'_at{lid}'] = Handler('_at', lambda ex, a, kw, at=at: at(ex.coerce(a[0], INT).t))
+  at = it.at
+  ghost['_at'] = ghost[f'_at{lid}'] = Handler('_at', lambda ex, a, kw, at=at: at(ex.coerce(a[0], INT).t))
   ghost.update(pre_snapshot(self, mod, env))
   for i, g in enumerate(eval_clauses(self, invs, env, ghost)):
     self.oblige(g, f'inv-init[{lid}.{i}]')
@@ -369,6 +368,8 @@ def comprehension(self, n, env, kind):
         hint = SeqOf(s0) if kind in ('list', 'tuple') else SetOf(s0)
       el = self.coerce(el_v, hint.elem)
     elif kind == 'dict':
+      if hint is None:
+        hint = getattr(self.spec, 'dict_hint', None)
       if hint is None:
         raise OutsideSubset('dict comprehension without sort hint')
       kk = self.coerce(key_v, hint.key)
